@@ -46,5 +46,12 @@ func (lg *locGen) scheduledRule() map[string]interface{} {
 	sch := pick(r, "+1h", "+2h", "* * * * * * *", "0 0 * * * * *", "!2031-01-02T15:04:05Z").(string)
 	rule := map[string]interface{}{"schedule": sch, "action": map[string]interface{}{"code": "1"}}
 	lg.sem["1"] = map[string]interface{}{"t": "const", "v": 1.0}
+	if r.Intn(4) == 0 && len(lg.ids) > 0 {
+		// the body carries an "id" member of its own (a copied rule): the id it is stored under wins
+		rule["id"] = lg.ids[r.Intn(len(lg.ids))]
+	}
+	if r.Intn(3) == 0 {
+		rule["schedule"] = pick(r, "+1s", "+1h", "!2031-01-02T15:04:05Z").(string) // one-shot schedules
+	}
 	return rule
 }
